@@ -41,6 +41,31 @@ pub struct Spec {
     pub version: bool,
 }
 
+/// The harness only needs to *add* a define to the options; it does not
+/// care which container the repository keeps them in (a refactoring from a
+/// list to a map must not break the harness build).
+pub trait PushDef {
+    fn push_def(&mut self, d: asm::DriverSymbolDef);
+}
+
+impl PushDef for Vec<asm::DriverSymbolDef> {
+    fn push_def(&mut self, d: asm::DriverSymbolDef) {
+        self.push(d);
+    }
+}
+
+impl<S: std::hash::BuildHasher> PushDef for std::collections::HashMap<String, asm::DriverSymbolDef, S> {
+    fn push_def(&mut self, d: asm::DriverSymbolDef) {
+        self.entry(d.name.clone()).or_insert(d);
+    }
+}
+
+impl PushDef for std::collections::BTreeMap<String, asm::DriverSymbolDef> {
+    fn push_def(&mut self, d: asm::DriverSymbolDef) {
+        self.entry(d.name.clone()).or_insert(d);
+    }
+}
+
 impl Spec {
     pub fn simple(root: &str) -> Spec {
         Spec { roots: vec![root.to_string()], groups: vec![Group { format: None, out: None, print: false }], quiet: false, ..Default::default() }
@@ -144,7 +169,7 @@ impl Spec {
             } else {
                 return None;
             };
-            opts.driver_symbol_defs.push(asm::DriverSymbolDef { name: parts[0].to_string(), value });
+            opts.driver_symbol_defs.push_def(asm::DriverSymbolDef { name: parts[0].to_string(), value });
         }
         Some(opts)
     }
@@ -280,6 +305,10 @@ pub struct ExecEnv {
     pub lib_pass: bool,
     /// format the result in every output format (C10 record)
     pub all_formats: bool,
+    /// number of unrelated handles the embedding host registered before the
+    /// built-in library (shifts every file handle; 0 in the canonical
+    /// environment)
+    pub handle_offset: usize,
 }
 
 fn catch<F: FnOnce() -> R, R>(f: F) -> Result<R, String> {
@@ -337,6 +366,7 @@ pub fn exec_job(job: &Job, faults: &[Fault], env: &ExecEnv, server: Option<SimFi
 
 fn fresh_server(job: &Job, faults: &[Fault], env: &ExecEnv) -> SimFileServer {
     let mut fs = SimFileServer::new(job.disk.clone(), faults.to_vec(), env.sched.clone());
+    fs.add_placeholder_handles(env.handle_offset);
     if job.use_std {
         fs.add_std_files(STD_FILES);
     }
